@@ -1746,8 +1746,12 @@ class rx:
             'kwargs': {},
             'reverse': False
         }
-        self._method = None
-        return self._clone(operation)
+        # Record the attribute access on a private copy (as __call__ does) so
+        # that `self`, which other expressions and watchers may hold as
+        # `dfi.A`, keeps standing for the attribute.
+        new = self._clone(copy=True)
+        new._method = None
+        return new._clone(operation)
 
     def __getattribute__(self, name):
         self_dict = super().__getattribute__('__dict__')
